@@ -723,6 +723,7 @@ def run_instance(inst):
 
 # ------------------------------------------------------------------ property runner
 _INSTANCES = []
+_DEADLINE = [None]      # overall wall budget of one check run: instances not started by then are skipped and reported
 
 
 def _worker(i):
@@ -730,6 +731,11 @@ def _worker(i):
     import warnings
     warnings.simplefilter("ignore")
     inst = _INSTANCES[i]
+    if _DEADLINE[0] is not None and time.time() > _DEADLINE[0]:
+        return i, dict(name=inst["name"], paths=0, forks=0, obligations=0, discharged=0, validated=0, reached=0, violations=[], known={},
+                       inconclusive=["budget: overall wall budget of the run reached before this instance started"], mismatches=[], samples=[],
+                       unknown=0, completions=0, wall_s=0.0, exhaustive=False, outcomes={}, queries=dict(sat=0, unsat=0, unknown=0),
+                       solver_s=0.0, model_hits=0, functions={})
     try:
         sys.setrecursionlimit(20000)
         r = run_instance(inst)
@@ -771,6 +777,8 @@ def run_property(pid, instances, tier, seed, meta):
         else:
             stale.append(fid)
     results = [None] * len(instances)
+    budget = float(os.environ.get("VERIF_RUN_WALL") or meta.get("run_wall_s", {}).get(tier) or (780 if tier == "quick" else 3000))
+    _DEADLINE[0] = t0 + budget
     nproc = min(int(os.environ.get("VERIF_JOBS", "16")), max(1, len(instances)))
     if nproc > 1:
         ctxm = multiprocessing.get_context("fork")
@@ -855,7 +863,8 @@ def run_property(pid, instances, tier, seed, meta):
             obligations=agg["obligations"], discharged=agg["discharged"],
             queries=dict(sat=agg["sat"], unsat=agg["unsat"], unknown=agg["unknown"]), solver_s=round(agg["solver_s"], 2),
             functions_encoded=[dict(qualname=k, sha1=v) for k, v in sorted(functions.items()) if not k.startswith("harness")],
-            harness_instances=len(instances), instances_with_paths=non_trivial,
+            harness_instances=len(instances), instances_with_paths=non_trivial, run_wall_budget_s=budget,
+            instances_skipped_by_run_budget=len([r for r in results if r and not r.get("crashed") and r.get("inconclusive") and str(r["inconclusive"][0]).startswith("budget: overall")]),
             bounds=meta.get("bounds", {}), iterated=meta.get("iterated", {}), models_used=meta.get("models", []),
             exhaustive=bool(exhaustive and not inconc), observations=meta.get("observations", []),
             known_findings_reproduced=[l for l in known_lines], known_region_paths=known_counts,
